@@ -138,9 +138,12 @@ def records (s : Bytes) : List Bytes × Bytes :=
   let ps := M.splitSep2 s
   (ps.dropLast, ps.getLast?.getD [])
 
+/-- a record of a well-formed stream: valid UTF-8 from first to last byte, accepted by the entry
+    parser, and a single block of lines — not empty, no blank line inside, no '\n' at either end
+    (so that the "\n\n" after it is the only separator) -/
 def goodRecord (r : Bytes) : Bool :=
-  (M.utf8 r).2 == .complete && !r.isEmpty && (match parse (r ++ [10]) with | .ok _ => true | .error _ => false) &&
-  -- made of non-empty lines only
-  (textLines (r ++ [10])).all (fun l => !l.isEmpty)
+  (M.utf8 r).1 == r.length && (M.utf8 r).2 == .complete &&
+  (match parse r with | .ok _ => true | .error _ => false) &&
+  !r.isEmpty && r.head? != some 10 && r.getLast? != some 10 && (M.lastSepEnd r).isNone
 
 end S
